@@ -226,6 +226,24 @@ func (s *Sched) TagGoroutine(tag string, override bool) {
 	s.mu.Unlock()
 }
 
+// DisableStalls ends all injected stalls (drain phase: faults have stopped).
+func (s *Sched) DisableStalls() {
+	s.mu.Lock()
+	s.stalls = nil
+	s.stallHit = nil
+	for _, r := range s.pending {
+		r.NotBefore = 0
+	}
+	s.mu.Unlock()
+}
+
+// TagOf returns the logical tag of a goroutine ("" if it has none yet).
+func (s *Sched) TagOf(gid uint64) string {
+	s.mu.Lock()
+	defer s.mu.Unlock()
+	return s.gtags[gid]
+}
+
 // normalize puts the pending list in canonical order (independent of the order in which goroutines
 // that woke at the same simulated instant happened to run) and applies stall matching to new requests.
 func (s *Sched) normalize(now time.Duration) {
